@@ -126,7 +126,7 @@ def run_history(start, dt, kinds, begin_settings, compress, crash_k, trunc, two_
             got.append(issue(client, iid, r))
         f = os.path.join(sd, iid + ".json")
         if crash_k == 0 and not os.path.exists(f):
-            return []          # nothing externalised yet: the session is not covered by the statement
+            return None        # nothing externalised yet: the session is not covered by the statement (not counted)
         if trunc is not None:
             truncate(f if tear == "main" else os.path.join(sd, other + ".json"), trunc)
         del app, client           # the process is gone
@@ -211,8 +211,12 @@ def run(ctx):
     res = core.pmap(_work, parts)
     crash_points = sum(1 for j in js if j[6] is None)
     torn = len(js) - crash_points
+    skipped = 0
     for part, r in zip(parts, res):
         for j, viol in zip(part, r):
+            if viol is None:
+                skipped += 1
+                continue
             for clause, detail in viol:
                 feat = []
                 if j[3]:
@@ -225,7 +229,7 @@ def run(ctx):
                     feat.append("torn:" + j[6] + ("(other file)" if len(j) > 8 and j[8] == "other" else ""))
                 ctx.violation("C20/%s/%s" % (clause, "+".join(feat) or "plain"), {"job": list(j)}, detail)
     ctx.finish({
-        "evaluations": len(js), "distinct_nontrivial": len(js), "crash_point_cases": crash_points, "torn_write_cases": torn,
+        "evaluations": len(js), "distinct_nontrivial": len(js) - skipped, "not_externalised_yet_skipped": skipped, "crash_point_cases": crash_points, "torn_write_cases": torn,
         "rule": "histories (run spec x N <= %d stepping requests x every sequence over {no body, {}, constants, constants+points} x begin-session settings x compress) x "
                 "every crash point k in 0..N; plus torn writes: file written by request k cut at %r, with and without a second intact instance; "
                 "each case = one interrupted execution compared with the uninterrupted one" % (3 if ctx.tier == "quick" else 4, TRUNC),
@@ -234,4 +238,4 @@ def run(ctx):
 
 
 def replay(case):
-    return run_history(*case["job"]) or None
+    return run_history(*case["job"]) or None   # (None also for a case that is skipped)
